@@ -48,6 +48,8 @@ const (
 	watchdogT  = 60 * time.Second // a call parked this long is dumped
 	progressT  = 45 * time.Second // bounded progress after the server accepts again
 	pingPeriod = 3 * time.Second
+	// overshoot of a deadline that is conclusive while the load probe recorded no lateness at all
+	quietSlack = 300 * time.Millisecond
 )
 
 var hookPoints = []string{"client.request.registered", "client.answer.deleted", "conn.send.write", "conn.reconnect.entry", "conn.reader.packet"}
@@ -212,11 +214,11 @@ type qrec struct {
 }
 
 type policy struct {
-	now, delay, batch, twice, unknown, junk, never int // weights
-	maxDelay                                       time.Duration
-	minDelay                                       time.Duration // added to every delayed answer
-	bigAnswers                                     bool
-	authJunk                                       bool // junk may include an unsolicited tcp.authentificationNonce
+	now, delay, batch, twice, many, unknown, junk, never int // weights
+	maxDelay                                             time.Duration
+	minDelay                                             time.Duration // added to every delayed answer
+	bigAnswers                                           bool
+	authJunk                                             bool // junk may include an unsolicited tcp.authentificationNonce
 }
 
 type held struct {
@@ -255,8 +257,8 @@ func (s *srvState) nonce() [32]byte {
 
 func (s *srvState) pickAction() string {
 	p := s.pol
-	names := []string{"now", "delay", "batch", "twice", "unknown", "junk", "never"}
-	ws := []int{p.now, p.delay, p.batch, p.twice, p.unknown, p.junk, p.never}
+	names := []string{"now", "delay", "batch", "twice", "many", "unknown", "junk", "never"}
+	ws := []int{p.now, p.delay, p.batch, p.twice, p.many, p.unknown, p.junk, p.never}
 	tot := 0
 	for _, w := range ws {
 		tot += w
@@ -283,6 +285,14 @@ func (s *srvState) answerFor(rec *qrec, query []byte) []byte {
 	case 2:
 		if s.pol.bigAnswers {
 			padN = s.rng.Range(60_000, 300_000)
+		}
+	case 3:
+		// the answer as a whole is 253..257 bytes long (raw: 12 + padN + 24 key bytes) or 252..260
+		// (generated path: 40 + the padded TL bytes of 12 + padN): the boundary of the TL length prefix
+		if bytes.HasPrefix(query, adnl.MagicLSQuery) {
+			padN = s.rng.Range(196, 207)
+		} else {
+			padN = s.rng.Range(217, 221)
 		}
 	}
 	body := append(append([]byte("ANS:"), seq[:]...), s.rng.Bytes(padN)...)
@@ -458,7 +468,7 @@ func (s *srvState) serve(p *adnl.Peer) {
 		rec.action = act
 		s.actions[act]++
 		var wires [][]byte
-		var delay time.Duration
+		var delay, straggler time.Duration
 		real := 0 // index in wires of the answer that belongs to this query
 		switch act {
 		case "now", "batch":
@@ -470,6 +480,18 @@ func (s *srvState) serve(p *adnl.Peer) {
 			wires = [][]byte{s.answerFor(rec, query), s.answerFor(rec, query)}
 			if s.rng.Bool() {
 				delay = time.Duration(s.rng.Intn(int(s.pol.maxDelay)))
+			}
+		case "many":
+			// the same answer 2..8 times, written at once; sometimes a straggler later
+			one := s.answerFor(rec, query)
+			for k := s.rng.Range(2, 8); k > 0; k-- {
+				wires = append(wires, one)
+			}
+			if s.pol.minDelay > 0 {
+				delay = s.pol.minDelay + time.Duration(s.rng.Intn(int(s.pol.maxDelay)))
+			}
+			if s.rng.Chance(1, 3) {
+				straggler = time.Duration(s.rng.Intn(int(s.pol.maxDelay) + 1))
 			}
 		case "unknown":
 			var id [32]byte
@@ -511,6 +533,30 @@ func (s *srvState) serve(p *adnl.Peer) {
 		case "delay":
 			wr := wires[0]
 			time.AfterFunc(delay, func() { send(rec, wr) })
+		case "many":
+			ws := wires
+			burst := func() {
+				if s.silent.Load() {
+					return
+				}
+				var ns [][32]byte
+				for range ws {
+					ns = append(ns, s.nonce())
+				}
+				if err := p.SendBatch(ns, ws); err == nil {
+					s.mu.Lock()
+					rec.tSent = append(rec.tSent, time.Now())
+					s.mu.Unlock()
+				}
+				if straggler > 0 {
+					time.AfterFunc(straggler, func() { send(rec, ws[0]) })
+				}
+			}
+			if delay > 0 {
+				time.AfterFunc(delay, burst)
+			} else {
+				burst()
+			}
 		case "twice":
 			send(rec, wires[0])
 			w2 := wires[1]
@@ -536,23 +582,36 @@ type call struct {
 	errCls  string
 	e0, e1  int
 	g, n    int
-	timeout time.Duration
+	timeout time.Duration // what the call is allowed: min(client timeout, caller's deadline / moment of cancellation)
+	ctxMode string        // background | parent-later | parent-earlier | cancel-mid | cancelled | expired
 	done    atomic.Bool
 }
 
+// ctxExempt: the caller itself ended the call (cancelled, or handed in a context that was already
+// over); an error is then the expected outcome even while the server is healthy.
+func (c *call) ctxExempt() bool {
+	return c.ctxMode == "cancel-mid" || c.ctxMode == "cancelled" || c.ctxMode == "expired"
+}
+
 type env struct {
-	w       *mon.Worker
-	sc      scenario
-	rng     *mon.Rng
-	pr      *probe
-	hk      *hooks
-	st      *srvState
-	srv     *adnl.Server
-	id      *adnl.Identity
-	client  *liteclient.Client
-	timeout time.Duration
-	workers int
-	genPct  int
+	w              *mon.Worker
+	sc             scenario
+	rng            *mon.Rng
+	pr             *probe
+	hk             *hooks
+	st             *srvState
+	srv            *adnl.Server
+	id             *adnl.Identity
+	client         *liteclient.Client
+	timeout        time.Duration
+	workers        int
+	genPct         int
+	poll           bool // run the status poller next to the callers
+	polls, pollsRT atomic.Int64
+	ffFailed       atomic.Int64 // failed calls in the fault-free phase of mix / slow
+	// share (percent) of calls made with a caller-supplied context instead of context.Background(),
+	// and, of those, the share whose context is already over when the call is made
+	ctxPct, ctxDonePct int
 
 	mu      sync.Mutex
 	calls   []*call
@@ -603,6 +662,44 @@ func (e *env) abort() {
 	}
 }
 
+// boundaryLens: total lengths around the switch of the TL length prefix from its one-byte to its
+// four-byte form (254), for requests and answers alike.
+var boundaryLens = []int{253, 254, 255, 256, 257}
+
+// callCtx chooses the context a call is made with. Most calls use context.Background(); the others
+// carry a deadline later than the client's timeout (the client's timeout still bounds the call), an
+// earlier one (it bounds the call), are cancelled while in flight, or are already over on entry.
+// It returns the context, the time the call is allowed to take, and a cleanup function.
+func (e *env) callCtx(rng *mon.Rng, phase string) (ctx context.Context, mode string, allowed time.Duration, cleanup func()) {
+	ctx, mode, allowed, cleanup = context.Background(), "background", e.timeout, func() {}
+	if e.ctxPct == 0 || strings.HasPrefix(phase, "fault-") || phase == "after-edge" || rng.Intn(100) >= e.ctxPct {
+		return
+	}
+	if rng.Intn(100) < e.ctxDonePct {
+		if rng.Bool() {
+			c, cancel := context.WithCancel(context.Background())
+			cancel()
+			return c, "cancelled", 0, func() {}
+		}
+		c, cancel := context.WithDeadline(context.Background(), time.Now().Add(-time.Millisecond))
+		return c, "expired", 0, cancel
+	}
+	switch rng.Intn(3) {
+	case 0:
+		// later than the client's timeout, but near enough for a call that wrongly waits for it to end within the scenario
+		c, cancel := context.WithTimeout(context.Background(), e.timeout+4*time.Second)
+		return c, "parent-later", e.timeout, cancel
+	case 1:
+		d := e.timeout/2 + time.Duration(rng.Intn(int(e.timeout/2)+1))*9/10
+		c, cancel := context.WithTimeout(context.Background(), d)
+		return c, "parent-earlier", d, cancel
+	}
+	d := time.Duration(rng.Intn(int(e.timeout/2) + 1))
+	c, cancel := context.WithCancel(context.Background())
+	t := time.AfterFunc(d, cancel)
+	return c, "cancel-mid", d, func() { t.Stop(); cancel() }
+}
+
 // doCall issues one request (raw Request or the generated GetLibraries
 // method) with a fresh unique key and records what came back.
 func (e *env) doCall(rng *mon.Rng, g, n int, phase string) *call {
@@ -621,8 +718,16 @@ func (e *env) doCall(rng *mon.Rng, g, n int, phase string) *call {
 		if rng.Chance(1, 10) {
 			padN = rng.Range(250, 5000)
 		}
+		if rng.Chance(1, 16) {
+			// the whole request is 253..257 bytes long: the boundary of the TL length prefix
+			padN = mon.Pick(rng, boundaryLens) - len(req)
+			e.w.Seen("request_length_boundary", fmt.Sprint(len(req)+padN))
+		}
 		req = append(req, rng.Bytes(padN)...)
 	}
+	ctx, mode, allowed, cleanup := e.callCtx(rng, phase)
+	defer cleanup()
+	c.ctxMode, c.timeout = mode, allowed
 	c.e0 = e.hk.pos()
 	c.t0 = time.Now()
 	e.mu.Lock()
@@ -636,7 +741,7 @@ func (e *env) doCall(rng *mon.Rng, g, n int, phase string) *call {
 			copy(h[:], keyMarker)
 			copy(h[8:], kb[:])
 			var res liteclient.LiteServerLibraryResultC
-			res, err = e.client.LiteServerGetLibraries(context.Background(), liteclient.LiteServerGetLibrariesRequest{LibraryList: []tl.Int256{h}})
+			res, err = e.client.LiteServerGetLibraries(ctx, liteclient.LiteServerGetLibrariesRequest{LibraryList: []tl.Int256{h}})
 			var le liteclient.LiteServerErrorC
 			switch {
 			case err == nil && len(res.Result) == 1:
@@ -650,7 +755,7 @@ func (e *env) doCall(rng *mon.Rng, g, n int, phase string) *call {
 			}
 		} else {
 			var ans []byte
-			ans, err = e.client.Request(context.Background(), req)
+			ans, err = e.client.Request(ctx, req)
 			if err == nil {
 				c.ok, c.fp = true, fpOf(ans)
 			}
@@ -798,7 +903,10 @@ func (e *env) runCallers(g, n int, phase string, gap time.Duration) {
 			defer wg.Done()
 			rng := e.fork(phase, i)
 			for k := 0; k < n && !e.aborted.Load(); k++ {
-				e.doCall(rng, i, k, phase)
+				// a healthy phase in which call after call fails is decided; do not sit through thousands of timeouts
+				if c := e.doCall(rng, i, k, phase); !c.ok && !c.ctxExempt() && phase == "fault-free" && e.ffFailed.Add(1) >= 64 {
+					e.abort()
+				}
 				if gap > 0 {
 					time.Sleep(time.Duration(rng.Intn(int(gap))))
 				}
@@ -831,6 +939,10 @@ func (e *env) setup(pol policy, workers int, timeout time.Duration) bool {
 	defer cancel()
 	var conn *liteclient.Connection
 	pn := mon.Guard(func() { conn, err = liteclient.NewConnection(ctx, e.id.Pub[:], srv.Addr()) })
+	if pn == nil && err != nil && e.worstSince(e.start) > lateLimit {
+		e.w.Inconclusive("first connection failed on a stalled machine")
+		return false
+	}
 	if pn != nil || err != nil {
 		e.w.Violation("connect-failed@healthy-server", e.witness(map[string]any{"error": fmt.Sprint(err), "panic": fmt.Sprint(pn)}))
 		return false
@@ -842,16 +954,39 @@ func (e *env) setup(pol policy, workers int, timeout time.Duration) bool {
 		e.w.Violation("panic@"+pn.Site+"/NewClient", e.witness(map[string]any{"panic": pn.Value}))
 		return false
 	}
-	if int(srv.Accepted.Load()) != workers {
-		// OptionWorkersPerConnection only logs a failed clone; wait a moment for the accept counter
-		time.Sleep(100 * time.Millisecond)
-		if int(srv.Accepted.Load()) != workers {
-			e.w.Violation("workers-per-connection@fewer-connections-than-requested", e.witness(map[string]any{"sessions": srv.Accepted.Load(), "requested": workers}))
-			return false
-		}
+	// OptionWorkersPerConnection only logs a failed clone (the statement does not promise a number of
+	// connections): wait for the accept counter, then go on with the connections there are
+	for i := 0; i < 300 && int(srv.Accepted.Load()) < workers; i++ {
+		time.Sleep(10 * time.Millisecond)
+	}
+	if n := int(srv.Accepted.Load()); n < workers {
+		e.w.Count("clients_with_fewer_connections_than_requested", 1)
+		e.wit["connections_established"] = n
+		e.workers = n
 	}
 	go e.watchdog()
+	if e.poll {
+		go e.poller()
+	}
 	return true
+}
+
+// poller reads the client's status accessors all the time from a goroutine of its own, as a
+// monitoring loop of an application would: Client.AverageRoundTrip and Client.IsOK take part in the
+// executions the race detector and the watchdogs look at.
+func (e *env) poller() {
+	for !e.aborted.Load() {
+		var rt time.Duration
+		if pn := mon.Guard(func() { rt = e.client.AverageRoundTrip(); e.client.IsOK() }); pn != nil {
+			e.w.Violation("panic@"+pn.Site+"/AverageRoundTrip", e.witness(map[string]any{"panic": pn.Value, "stack": pn.Stack}))
+			return
+		}
+		e.polls.Add(1)
+		if rt > 0 {
+			e.pollsRT.Add(1)
+		}
+		time.Sleep(3 * time.Millisecond)
+	}
 }
 
 // ---------------------------------------------------------------- judging
@@ -875,6 +1010,7 @@ func (e *env) judge(mustSucceed map[string]bool) {
 	for _, m := range st.malformed {
 		e.w.Violation("malformed-on-the-wire@"+mon.PanicClass(strings.SplitN(m, ":", 2)[0]), e.witness(map[string]any{"what": m}))
 	}
+	time.Sleep(300 * time.Millisecond) // after a stall the load probe may not have recorded it yet
 	stalled := e.pr.worst(e.start, time.Now()) > stallLimit
 	if stalled {
 		e.w.Inconclusive("process stalled for more than 1 s during the scenario; wall-clock verdicts dropped")
@@ -892,8 +1028,10 @@ func (e *env) judge(mustSucceed map[string]bool) {
 			path = "LiteServerGetLibraries"
 		}
 		e.w.Seen("api_paths", path)
+		e.w.Seen("caller_contexts", c.ctxMode+"/"+map[bool]string{true: "answered", false: "error"}[c.ok])
 		wit := func(extra map[string]any) map[string]any {
-			m := map[string]any{"phase": c.phase, "api": path, "goroutine": c.g, "call": c.n, "elapsed_ms": c.t1.Sub(c.t0).Milliseconds(), "client_timeout_ms": c.timeout.Milliseconds()}
+			m := map[string]any{"phase": c.phase, "api": path, "goroutine": c.g, "call": c.n, "elapsed_ms": c.t1.Sub(c.t0).Milliseconds(), "allowed_ms": c.timeout.Milliseconds(),
+				"client_timeout_ms": e.timeout.Milliseconds(), "caller_context": c.ctxMode}
 			if rec != nil {
 				m["server_action"], m["answers_produced"], m["answers_written"], m["server_session"] = rec.action, len(rec.fps), len(rec.tSent), rec.session
 			}
@@ -945,18 +1083,34 @@ func (e *env) judge(mustSucceed map[string]bool) {
 		} else {
 			e.w.Count("calls_error:"+c.errCls, 1)
 		}
-		// (3) deadline
+		// (3) deadline: the call is over by min(client timeout, caller's deadline or cancellation) + slack.
+		// While the load probe saw nothing at all (no 5 ms sleeper woke up more than 20 ms late during
+		// the call) a much smaller overshoot is already conclusive.
 		if el := c.t1.Sub(c.t0); el > c.timeout+slack && !stalled {
 			if late := e.pr.worst(c.t0, c.t1); late > lateLimit {
 				e.w.Inconclusive("deadline overrun on a loaded machine")
 			} else {
-				e.w.Violation("deadline-overrun@"+map[bool]string{true: "success", false: c.errCls}[c.ok], wit(map[string]any{"worst_lateness_ms": late.Milliseconds()}))
+				e.w.Violation("deadline-overrun@"+map[bool]string{true: "success", false: c.errCls}[c.ok]+"/"+c.ctxMode, wit(map[string]any{"worst_lateness_ms": late.Milliseconds()}))
 			}
+		} else if el > c.timeout+quietSlack && !c.ok && !stalled && e.pr.worst(c.t0.Add(-50*time.Millisecond), c.t1.Add(50*time.Millisecond)) == 0 {
+			e.w.Violation("deadline-overrun@"+c.errCls+"/"+c.ctxMode+"/quiet-machine", wit(map[string]any{"overshoot_ms": (el - c.timeout).Milliseconds(), "worst_lateness_ms": 0}))
 		}
 		// (2) fault-free phases: every call succeeds
-		if !c.ok && mustSucceed[c.phase] && !stalled {
+		if !c.ok && mustSucceed[c.phase] && !stalled && c.ctxExempt() {
+			e.w.Count("calls_ended_by_their_caller", 1)
+		} else if !c.ok && mustSucceed[c.phase] && !stalled {
 			late := e.pr.worst(c.t0, c.t1)
-			answeredInTime := rec != nil && len(rec.tSent) > 0 && rec.tSent[0].Sub(c.t0) < c.timeout-slack
+			// the answer was on the wire early enough for the client to hand it over: timeout - slack
+			// for long timeouts, half the timeout for short ones (the other half is the client's)
+			margin := c.timeout - slack
+			if margin < c.timeout/2 {
+				margin = c.timeout / 2
+			}
+			answeredInTime := rec != nil && len(rec.tSent) > 0 && rec.tSent[0].Sub(c.t0) < margin
+			if answeredInTime && c.timeout < 2*slack && e.pr.worst(c.t0.Add(-50*time.Millisecond), c.t1.Add(50*time.Millisecond)) > 0 {
+				// short timeouts: only a probe that saw nothing at all (no sleeper more than 20 ms late) makes the verdict conclusive
+				answeredInTime = false
+			}
 			switch {
 			case c.errCls == "panic":
 			case c.errCls == "timeout" && rec != nil && rec.action == "never":
@@ -980,6 +1134,8 @@ func (e *env) judge(mustSucceed map[string]bool) {
 			continue
 		}
 	}
+	e.w.Count("status_polls", e.polls.Load())
+	e.w.Count("status_polls_with_a_measured_round_trip", e.pollsRT.Load())
 	for _, n := range hookPoints {
 		e.hk.mu.Lock()
 		k := e.hk.count[n]
@@ -1000,7 +1156,7 @@ func (e *env) params() (g, workers int) {
 }
 
 func mixPolicy(rng *mon.Rng) policy {
-	p := policy{now: rng.Range(1, 6), delay: rng.Range(0, 4), batch: rng.Range(0, 6), twice: rng.Range(0, 3), unknown: rng.Range(0, 3), junk: rng.Range(0, 3),
+	p := policy{now: rng.Range(1, 6), delay: rng.Range(0, 4), batch: rng.Range(0, 6), twice: rng.Range(0, 3), many: rng.Range(0, 2), unknown: rng.Range(0, 3), junk: rng.Range(0, 3),
 		maxDelay: time.Duration(rng.Range(2, 80)) * time.Millisecond, bigAnswers: rng.Chance(1, 3)}
 	return p
 }
@@ -1015,6 +1171,9 @@ func scenarioMix(e *env) {
 	per := max(total/g, 1)
 	pol := mixPolicy(e.rng)
 	pol.authJunk = true // harmless while the connection stays up; the reconnect scenarios leave it to the directed schedule
+	if e.sc.Idx%3 == 1 {
+		pol.many = max(pol.many, 2) // every third scenario is sure to see answers repeated more than twice
+	}
 	e.genPct = mon.Pick(e.rng, []int{0, 20, 50, 100})
 	e.wit["goroutines"], e.wit["workers_per_connection"], e.wit["calls_per_goroutine"], e.wit["policy"] = g, workers, per, fmt.Sprintf("%+v", pol)
 	if !e.setup(pol, workers, 5*time.Second) {
@@ -1034,6 +1193,7 @@ func scenarioSlow(e *env) {
 	workers := e.rng.Range(1, 2)
 	pol := policy{delay: 1, minDelay: time.Duration(e.rng.Range(10800, 11800)) * time.Millisecond, maxDelay: 300 * time.Millisecond}
 	g, per := e.rng.Range(1, 3), 1
+	e.ctxPct = 0
 	e.wit["goroutines"], e.wit["workers_per_connection"], e.wit["calls_per_goroutine"], e.wit["policy"] = g, workers, per, fmt.Sprintf("%+v", pol)
 	if !e.setup(pol, workers, 16*time.Second) {
 		return
@@ -1066,7 +1226,7 @@ func scenarioSlow(e *env) {
 // one call must never surface in another.
 func scenarioEdge(e *env) {
 	timeout := time.Duration(e.rng.Range(20, 40)) * time.Millisecond
-	pol := policy{delay: 1, minDelay: timeout - 2*time.Millisecond, maxDelay: 4 * time.Millisecond}
+	pol := policy{delay: 2, many: 1, minDelay: timeout - 2*time.Millisecond, maxDelay: 4 * time.Millisecond}
 	g, per := 16, e.rng.Range(100, 200)
 	workers := e.rng.Range(1, 2)
 	e.genPct = 0
@@ -1076,6 +1236,7 @@ func scenarioEdge(e *env) {
 	}
 	e.runCallers(g, per, "answers-at-the-deadline", 0)
 	e.w.Seen("shapes", fmt.Sprintf("edge/g=%d/w=%d", g, workers))
+	e.afterEdge()
 	e.judge(map[string]bool{})
 	e.mu.Lock()
 	okN, toN := 0, 0
@@ -1091,6 +1252,111 @@ func scenarioEdge(e *env) {
 	e.w.Count("edge_calls_timed_out", int64(toN))
 }
 
+// blockedTongoGoroutines lists the goroutines that sit in tongo code waiting to send on a channel
+// or to take a lock (id -> innermost tongo function). An idle client has none: its goroutines wait
+// for packets, timers and the socket.
+func blockedTongoGoroutines() map[string]string {
+	out := map[string]string{}
+	for _, g := range strings.Split(dumpStacks(), "\n\n") {
+		head, _, _ := strings.Cut(g, "\n")
+		if !strings.HasPrefix(head, "goroutine ") || !(strings.Contains(head, "[chan send") || strings.Contains(head, "[sync.Mutex.Lock") || strings.Contains(head, "[semacquire")) {
+			continue
+		}
+		for _, ln := range strings.Split(g, "\n") {
+			if strings.HasPrefix(ln, "github.com/tonkeeper/tongo/") {
+				f := strings.TrimPrefix(ln, "github.com/tonkeeper/tongo/")
+				if i := strings.LastIndex(f, "("); i > 0 {
+					f = f[:i]
+				}
+				out[strings.Fields(head)[1]] = f
+				break
+			}
+		}
+	}
+	return out
+}
+
+// afterEdge: once the calls whose answers raced their deadlines are over, the server answers at
+// once again and the client is idle. A few calls, one after the other, then show whether the
+// client still delivers answers (no execution deadlocks): if most of them time out although the
+// server wrote the answer at once, and a goroutine of the client sits blocked on a channel send or
+// a lock in two dumps 300 ms apart, the client is stuck. The calls use the scenario's short client
+// timeout, so single failures mean nothing and are only counted.
+func (e *env) afterEdge() {
+	if e.aborted.Load() {
+		return
+	}
+	e.st.mu.Lock()
+	e.st.pol = policy{now: 1, maxDelay: time.Millisecond}
+	e.st.mu.Unlock()
+	// stragglers of the first phase: wait until the client has worked off what the server sent (no hook
+	// event for 200 ms), and stop slowing its goroutines down at the hook points
+	e.hk.enabled.Store(false)
+	for i, last, still := 0, e.hk.pos(), 0; i < 300 && still < 4; i++ {
+		time.Sleep(50 * time.Millisecond)
+		if p := e.hk.pos(); p == last {
+			still++
+		} else {
+			last, still = p, 0
+		}
+	}
+	rng := e.fork("after-edge", 0)
+	n, lost := 12*e.workers, 0
+	t0 := time.Now()
+	for k := 0; k < n && !e.aborted.Load(); k++ {
+		c := e.doCall(rng, 0, k, "after-edge")
+		if c.ok {
+			continue
+		}
+		e.st.mu.Lock()
+		rec := e.st.log[c.key]
+		if c.errCls == "timeout" && rec != nil && len(rec.tSent) > 0 && rec.tSent[0].Sub(c.t0) < c.timeout/4 {
+			lost++
+		}
+		e.st.mu.Unlock()
+	}
+	e.w.Count("after_edge_calls", int64(n))
+	e.w.Count("after_edge_calls_timed_out_although_answered_at_once", int64(lost))
+	if lost < 10 {
+		return
+	}
+	// blocked for good, not busy: the same goroutines at the same place 300 ms later, and not a single
+	// hook point passed in between
+	var b1, b2 map[string]string
+	for try := 0; ; try++ {
+		p1 := e.hk.pos()
+		b1 = blockedTongoGoroutines()
+		time.Sleep(300 * time.Millisecond)
+		b2 = blockedTongoGoroutines()
+		if e.hk.pos() == p1 {
+			break
+		}
+		if try == 3 { // a ping now and then passes hook points too; four times in a row it is traffic
+			e.w.Count("after_edge_failures_while_the_client_was_busy", 1)
+			return
+		}
+	}
+	var parked []string
+	seen := map[string]bool{}
+	for id, f := range b1 {
+		if b2[id] == f && !seen[f] {
+			seen[f] = true
+			parked = append(parked, f)
+		}
+	}
+	sort.Strings(parked)
+	if len(parked) == 0 {
+		e.w.Count("after_edge_failures_without_a_blocked_goroutine", 1)
+		return
+	}
+	if late := e.worstSince(t0); late > lateLimit {
+		e.w.Inconclusive("calls after the deadline phase failed on a stalled machine")
+		return
+	}
+	e.w.Violation("client-stuck@after-answers-at-the-deadline/"+strings.Join(parked, "+"), e.witness(map[string]any{"calls": n, "timed_out_although_answered_at_once": lost,
+		"blocked_in": parked, "tongo_goroutines": tongoStacks(dumpStacks())}))
+}
+
 // deadline: a share of the queries is never answered; those calls must come
 // back with an error by timeout + slack, the others with their own answer.
 func scenarioDeadline(e *env) {
@@ -1101,7 +1367,7 @@ func scenarioDeadline(e *env) {
 	timeout := time.Duration(e.rng.Range(300, 500)) * time.Millisecond
 	pol := mixPolicy(e.rng)
 	pol.maxDelay = 40 * time.Millisecond
-	pol.never = (pol.now + pol.delay + pol.batch + pol.twice + pol.unknown + pol.junk + 2) / 3
+	pol.never = (pol.now + pol.delay + pol.batch + pol.twice + pol.many + pol.unknown + pol.junk + 2) / 3
 	pol.bigAnswers = false
 	e.genPct = mon.Pick(e.rng, []int{0, 30})
 	per := e.rng.Range(4, 14)
@@ -1287,6 +1553,22 @@ func scenarioReconnect(e *env) {
 	if e.w.Thorough() && e.rng.Chance(1, 3) {
 		rounds = 2
 	}
+	// the first scenarios also make sure of: a connection that is lost twice (two fault rounds; sessions
+	// dropped again right after they were re-established), a reset instead of an orderly close, and
+	// one lost connection among several
+	minDrop := 1
+	switch e.sc.Idx {
+	case 0:
+		workers, onlyOne = max(workers, 2), true
+	case 1:
+		abrupt = true
+	case 2:
+		rounds = 2
+	case 3:
+		abrupt = false
+	case 5, 6:
+		refuse, minDrop = "drop-after-handshake", 2
+	}
 	e.wit["goroutines"], e.wit["workers_per_connection"], e.wit["variant"], e.wit["refuse"], e.wit["refuse_ms"], e.wit["rst"], e.wit["only_one_connection"] =
 		g, workers, variant, refuse, refuseFor.Milliseconds(), abrupt, onlyOne
 	if !e.setup(pol, workers, timeout) {
@@ -1309,7 +1591,7 @@ func scenarioReconnect(e *env) {
 			e.srv.StopListening()
 		case "drop-after-handshake":
 			e.st.mu.Lock()
-			e.st.dropAfter = e.rng.Range(1, 3)
+			e.st.dropAfter = e.rng.Range(minDrop, 3)
 			e.st.mu.Unlock()
 		}
 		tClose := time.Now()
@@ -1327,6 +1609,7 @@ func scenarioReconnect(e *env) {
 		}
 		class := fmt.Sprintf("%s/refuse=%s", variant, refuse)
 		e.w.Seen("faults", fmt.Sprintf("%s/rst=%v/one=%v", class, abrupt, onlyOne))
+		e.w.Seen("fault_rounds_on_one_client", fmt.Sprint(r))
 		if refuse == "turn-away" || refuse == "stop-listening" {
 			time.Sleep(refuseFor)
 			if refuse == "turn-away" {
@@ -1447,6 +1730,10 @@ func tongoGoroutines() (map[string]int, int) {
 	total := 0
 	for _, blk := range strings.Split(buf.String(), "\n\n") {
 		lines := strings.Split(blk, "\n")
+		// the profile starts with a header line; the group right behind it is the most numerous one
+		if len(lines) > 0 && strings.HasPrefix(lines[0], "goroutine profile:") {
+			lines = lines[1:]
+		}
 		if len(lines) == 0 {
 			continue
 		}
@@ -1479,6 +1766,9 @@ func scenarioGrowth(e *env) {
 	pol.now += 8
 	pol.bigAnswers = false
 	e.genPct = 20
+	// no status poller here (its goroutine would be counted while it is inside tongo); one call in four
+	// comes with a context of the caller's, and 4 of 10 of those contexts are already over when the call is made
+	e.poll, e.ctxPct, e.ctxDonePct = false, 25, 40
 	first := 200 / g
 	e.wit["goroutines"], e.wit["workers_per_connection"], e.wit["first_batch"], e.wit["second_batch"] = g, workers, first*g, 10*first*g
 	if !e.setup(pol, workers, timeout) {
@@ -1555,7 +1845,7 @@ func runScenario(w *mon.Worker) {
 	quietTongo()
 	rng := w.Rng(sc.Kind, sc.Idx)
 	e := &env{w: w, sc: sc, rng: rng, pr: startProbe(), active: map[*call]struct{}{}, abortCh: make(chan struct{}),
-		wit: map[string]any{"scenario": sc.Kind, "index": sc.Idx, "seed": w.Seed}, start: time.Now()}
+		wit: map[string]any{"scenario": sc.Kind, "index": sc.Idx, "seed": w.Seed}, start: time.Now(), poll: true, ctxPct: 15, ctxDonePct: 15}
 	e.id = adnl.NewIdentity(rng.Bytes(32))
 	e.hk = installHooks(rng.Fork("hooks", 0))
 	e.wit["hook_yield_1_in"], e.wit["hook_sleep_1_in"] = e.hk.yieldP, e.hk.sleepP
@@ -1662,9 +1952,10 @@ func main() {
 	}
 	R := mon.Start("C12", tier)
 	R.Rule = "one evaluation per Client call (raw Request or generated LiteServerGetLibraries) issued by 1..64 goroutines over 1..4 connections against the reference ADNL server with a seed-driven adversarial answer scheduler " +
-		"(now / delayed / permuted coalesced batches / twice / preceded by an answer to an unknown id / surrounded by pongs and junk / never; connections closed mid-request or idle, with FIN or RST, all or one; clients turned away, listener closed, or sessions dropped right after the handshake); " +
+		"(now / delayed / permuted coalesced batches / twice / the same answer 2..8 times at once, also right at the caller's deadline / preceded by an answer to an unknown id / surrounded by pongs and junk / never; connections closed mid-request or idle, with FIN or RST, all or one, once or twice per client; clients turned away, listener closed, or sessions dropped again right after they were re-established); " +
+		"about one call in seven is made with a context of the caller's (deadline later or earlier than the client's timeout, cancelled in flight, already cancelled / expired on entry): the call is over by min(client timeout, caller's deadline or cancellation); requests and answers also take the lengths 253..257 around the TL length-prefix boundary; a status poller calls Client.AverageRoundTrip and IsOK next to the callers; " +
 		"every call carries a unique key and every answer the server produced is logged under it, so a successful call is compared with the answers produced for its own query id; distinct = distinct calls. " +
-		"Monitors: own answer; success in fault-free phases; return by timeout+2 s (load-aware); 2*connections consecutive successes and IsOK within 45 s of the server accepting again; goroutines inside tongo equal after 10x more calls; 60 s watchdog; race detector; interleavings = distinct sequences of hook events (first 24) observed while a call was in flight"
+		"Monitors: own answer; success in fault-free phases (a timeout counts when the server wrote the answer within timeout-2 s, or within half the timeout for timeouts below 4 s while the load probe saw nothing); return by allowed time+2 s (load-aware; +300 ms while the load probe saw nothing at all); after the answers-at-the-deadline phase sequential calls must still get through (client stuck = most of them lost and a client goroutine blocked on a channel send / lock in two dumps); 2*connections consecutive successes and IsOK within 45 s of the server accepting again; goroutines inside tongo equal after 10x more calls; 60 s watchdog; race detector; interleavings = distinct sequences of hook events (first 24) observed while a call was in flight"
 	R.Assume("the Go scheduler under -race with yields/sleeps (0-2 ms) injected at the five liteclient hook points is the only source of interleavings; schedules it never produces are not covered")
 	R.Assume("reference server harness/ref/adnl is correct (self-check + C11)")
 	R.Assume("'reconnects within a bounded time' is decided as: within 45 s of the server accepting connections again, 2*connections consecutive calls succeed and IsOK() is true")
@@ -1688,7 +1979,7 @@ func main() {
 	// reconnect scenarios first: they are the long ones (tongo's 3 s ping / 1 s retry timers)
 	add("slow", R.N(1, 6))
 	add("edge", R.N(2, 30))
-	add("reconnect", R.N(5, 40))
+	add("reconnect", R.N(7, 40))
 	add("directed", R.N(1, 2))
 	add("growth", R.N(1, 10))
 	add("deadline", R.N(3, 50))
